@@ -2,6 +2,7 @@
 #![allow(clippy::too_many_arguments, clippy::type_complexity)]
 
 mod corpus;
+mod faults;
 mod framework;
 mod gen;
 mod inputs;
@@ -48,9 +49,12 @@ fn usage() -> ! {
 }
 
 fn main() {
+    // anyhow captures a backtrace per error when these are set: never on our paths
+    std::env::remove_var("RUST_BACKTRACE");
+    std::env::remove_var("RUST_LIB_BACKTRACE");
     simrt::install_logger();
     // panics inside the code under test are data, not output
-    std::panic::set_hook(Box::new(|_| {}));
+    simrt::install_panic_hook();
     simrt::warm_up();
     let args: Vec<String> = std::env::args().collect();
     if args.len() < 2 {
